@@ -157,3 +157,31 @@ def standin(name, props=()):
         STANDINS.append((name, list(props), fn))
         return fn
     return deco
+
+
+# numpy-level primitives of the spec language (assumed numpy semantics, A4) -------------------
+
+def elementwise(op, *operands):
+    """op applied elementwise with numpy broadcasting; result is a fresh array."""
+    with np.errstate(all='ignore'):
+        return np.array(op(*[np.asarray(o) if isinstance(o, (list, tuple)) else o for o in operands]))
+
+
+def inplace_elementwise(op, a, b):
+    """a[...] = op(a, b) with b broadcast to a's shape (ValueError if the result does not fit)."""
+    with np.errstate(all='ignore'):
+        r = op(a, np.asarray(b) if isinstance(b, (list, tuple)) else b)
+    r = np.asarray(r)
+    if r.shape != a.shape:
+        raise ValueError('non-broadcastable output operand')
+    a[...] = r
+
+
+def broadcast_to(val, shape):
+    return np.array(np.broadcast_to(np.asarray(val, dtype=float), tuple(int(s) for s in shape)))
+
+
+def update(arr, f):
+    """Overwrite the whole storage of `arr` pointwise, in place."""
+    new = pointwise(arr.shape, f)
+    arr[...] = new
